@@ -56,6 +56,7 @@ const preludeArith = `; --- govc prelude: Go integer division ---
 (assert (forall ((o Int) (i Int)) (! (= (gs.ixinv o (gs.ix o i)) i) :pattern ((gs.ix o i)))))
 (declare-fun gs.pos (Int) Int)
 (assert (forall ((o Int) (i Int)) (! (= (gs.pos (gs.ix o i)) (+ o i)) :pattern ((gs.ix o i)))))
+(assert (forall ((i Int)) (! (= (gs.ix 0 i) i) :pattern ((gs.ix 0 i)))))
 (define-fun go.div ((a Int) (b Int)) Int (ite (>= a 0) (ite (> b 0) (div a b) (- (div a (- b)))) (ite (> b 0) (- (div (- a) b)) (div (- a) (- b)))))
 (define-fun go.mod ((a Int) (b Int)) Int (- a (* b (go.div a b))))
 (define-fun go.max ((a Int) (b Int)) Int (ite (>= a b) a b))
